@@ -10,10 +10,17 @@ import LopdfModel.Spec.PdfDate
 namespace Lopdf
 open Gen Spec
 
-/-- in-range broken-down fields (years 0000–9999, offsets within ±23:59) -/
+theorem daysInMonth_le (y m : Nat) : daysInMonth y m ≤ 31 := by
+  unfold daysInMonth; split <;> (try split) <;> omega
+
+/-- valid broken-down fields: years 0000–9999, a day that exists in that month of that year
+(proleptic Gregorian), offsets within ±23:59 -/
 def FieldsOk (f : Fields) : Prop :=
-  f.year < 10000 ∧ 1 ≤ f.month ∧ f.month ≤ 12 ∧ 1 ≤ f.day ∧ f.day ≤ 31 ∧ f.hour < 24 ∧ f.minute < 60 ∧ f.second < 60
-    ∧ f.offH < 24 ∧ f.offM < 60
+  f.year < 10000 ∧ 1 ≤ f.month ∧ f.month ≤ 12 ∧ 1 ≤ f.day ∧ f.day ≤ daysInMonth f.year f.month ∧ f.hour < 24
+    ∧ f.minute < 60 ∧ f.second < 60 ∧ f.offH < 24 ∧ f.offM < 60
+
+theorem FieldsOk.day_le (f : Fields) (h : FieldsOk f) : f.day ≤ 31 :=
+  Nat.le_trans h.2.2.2.2.1 (daysInMonth_le _ _)
 
 instance (f : Fields) : Decidable (FieldsOk f) := by unfold FieldsOk; exact inferInstance
 
@@ -239,6 +246,7 @@ theorem parse_full (z : Bool) (f : Fields) (hf : FieldsOk f) :
   cases f with
   | mk y mo d h mi s neg oh om =>
     simp only at h1 h2 h3 h4 h5 h6 h7 h8 h9 h10
+    have h5' : d ≤ 31 := Nat.le_trans h5 (daysInMonth_le _ _)
     cases neg <;>
       simp [Fields.stripped, pad4, pad2, parseToks, parseTok, num2_digits, signByte, zeroFields,
         year_digits y h1, two_digits mo (by omega), two_digits d (by omega), two_digits h (by omega),
@@ -250,14 +258,16 @@ theorem parse_full_time (f : Fields) (hf : FieldsOk f) :
   cases f with
   | mk y mo d h mi s neg oh om =>
     simp only at h1 h2 h3 h4 h5 h6 h7 h8 h9 h10
+    have h5' : d ≤ 31 := Nat.le_trans h5 (daysInMonth_le _ _)
     cases neg <;>
       simp [Fields.stripped, pad4, pad2, parseToks, parseTok, num2_digits, signByte, zeroFields,
         year_digits y h1, two_digits mo (by omega), two_digits d (by omega), two_digits h (by omega),
         two_digits mi (by omega), two_digits s (by omega), two_digits oh (by omega), two_digits om (by omega)]
 
-theorem fieldsInRange_of_ok (f : Fields) (hf : FieldsOk f) : fieldsInRange f = true := by
+theorem fieldsInRange_of_ok (f : Fields) (hf : FieldsOk f) : fieldsInRange f = true ∧ fieldsInRangeWide f = true := by
   obtain ⟨h1, h2, h3, h4, h5, h6, h7, h8, h9, h10⟩ := hf
-  simp [fieldsInRange, *]
+  have h9' : f.offH < 26 := by omega
+  simp [fieldsInRange, fieldsInRangeWide, fieldsInRangeH, *]
 
 theorem chrono_alts : CHRONO_PARSE = CHRONO_PARSE.headD (0, []) :: CHRONO_PARSE.tail ∧ (CHRONO_PARSE.headD (0, [])).1 = 0 ∧
     tokStrftime (CHRONO_PARSE.headD (0, [])).2 = [.year, .month, .day, .hour, .minute, .second, .offPermissive] := by
@@ -267,9 +277,11 @@ theorem jiff_alts : JIFF_PARSE = JIFF_PARSE.headD (0, []) :: JIFF_PARSE.tail ∧
   refine ⟨by decide +kernel, by decide +kernel, by decide +kernel⟩
 
 theorem spec_strptime (z : Bool) (fmt s : Bytes) : specLib.strptime z fmt s =
-    (parseToks z (tokStrftime fmt) zeroFields s).bind fun f => if fieldsInRange f then some f else none := rfl
+    (parseToks z (tokStrftime fmt) zeroFields s).bind fun f =>
+      let f := if f.second = 60 then { f with second := 59 } else f
+      if (if z then fieldsInRange f else fieldsInRangeWide f) then some f else none := rfl
 theorem spec_timeParse (fmt s : Bytes) : specLib.timeParse fmt s =
-    (parseToks false (tokTimeFd fmt none) zeroFields s).bind fun f => if fieldsInRange f then some f else none := rfl
+    (parseToks false (tokTimeFd fmt none) zeroFields s).bind fun f => if fieldsInRangeWide f then some f else none := rfl
 
 theorem firstAlt_some (lib : DateLib) (z : Bool) (s : Bytes) (k : Nat) (fmt : Bytes) (rest : List (Nat × Bytes)) (f : Fields)
     (h : lib.strptime z fmt s = some f) : firstAlt lib z s ((k, fmt) :: rest) = some (applyKind k f) := by
@@ -308,20 +320,21 @@ theorem strip_parse_rt (lib : DateLib) (hlib : LibParses lib) (f : Fields) (hf :
   rw [as_datetime_pdf]
   simp only [Option.bind_some]
   have hr := fieldsInRange_of_ok f hf
+  have hs60 : ¬ f.second = 60 := by have := hf.2.2.2.2.2.2.2.1; omega
   refine ⟨?_, ?_, ?_⟩
   · apply firstAlt_head lib true _ CHRONO_PARSE f chrono_alts.1 chrono_alts.2.1
     rw [(hlib _ _ _).1]
     show (parseToks true (tokStrftime _) zeroFields f.stripped).bind _ = _
     rw [chrono_alts.2.2, parse_full true f hf]
-    simp [hr]
+    simp [hr.1, hr.2, hs60]
   · apply firstAlt_head lib false _ JIFF_PARSE f jiff_alts.1 jiff_alts.2.1
     rw [(hlib _ _ _).1]
     show (parseToks false (tokStrftime _) zeroFields f.stripped).bind _ = _
     rw [jiff_alts.2.2, parse_full false f hf]
-    simp [hr]
+    simp [hr.1, hr.2, hs60]
   · obtain ⟨t1, rest, hL, h1⟩ := time_alts
     have e1 : lib.timeParse t1 f.stripped = some f := by
-      rw [(hlib true t1 _).2, spec_timeParse, h1, parse_full_time f hf]; simp [hr]
+      rw [(hlib true t1 _).2, spec_timeParse, h1, parse_full_time f hf]; simp [hr.1, hr.2, hs60]
     unfold timeParse
     rw [hL, firstAltTime_some _ _ _ _ _ _ e1]
     simp [applyKind]
@@ -402,6 +415,7 @@ theorem parse_z_permissive (f : Fields) (hf : FieldsOk f) :
   cases f with
   | mk y mo d h mi s neg oh om =>
     simp only at h1 h2 h3 h4 h5 h6 h7 h8 h9 h10
+    have h5' : d ≤ 31 := Nat.le_trans h5 (daysInMonth_le _ _)
     simp [Fields.strippedZ, Fields.utc, pad4, pad2, parseToks, parseTok, num2_digits, zeroFields,
       year_digits y h1, two_digits mo (by omega), two_digits d (by omega), two_digits h (by omega),
       two_digits mi (by omega), two_digits s (by omega)]
@@ -420,6 +434,7 @@ theorem parse_z_literal (z : Bool) (f : Fields) (hf : FieldsOk f) :
   cases f with
   | mk y mo d h mi s neg oh om =>
     simp only at h1 h2 h3 h4 h5 h6 h7 h8 h9 h10
+    have h5' : d ≤ 31 := Nat.le_trans h5 (daysInMonth_le _ _)
     simp [Fields.strippedZ, Fields.utc, pad4, pad2, parseToks, parseTok, num2_digits, zeroFields,
       year_digits y h1, two_digits mo (by omega), two_digits d (by omega), two_digits h (by omega),
       two_digits mi (by omega), two_digits s (by omega)]
@@ -434,9 +449,9 @@ theorem time_alts2 : ∃ t1 t2 rest, TIME_PARSE = (0, t1) :: (1, t2) :: rest ∧
     tokTimeFd t2 none = [.year, .month, .day, .hour, .minute, .second, .lit 90] :=
   ⟨_, _, _, rfl, by decide +kernel, by decide +kernel⟩
 
-theorem utc_in_range (f : Fields) (hf : FieldsOk f) : fieldsInRange f.utc = true := by
+theorem utc_in_range (f : Fields) (hf : FieldsOk f) : fieldsInRange f.utc = true ∧ fieldsInRangeWide f.utc = true := by
   obtain ⟨h1, h2, h3, h4, h5, h6, h7, h8, h9, h10⟩ := hf
-  simp [fieldsInRange, Fields.utc, *]
+  simp [fieldsInRange, fieldsInRangeWide, fieldsInRangeH, Fields.utc, *]
 
 theorem applyKind_utc (k : Nat) (f : Fields) : applyKind k f.utc = f.utc := by
   unfold applyKind; split <;> rfl
@@ -451,45 +466,53 @@ theorem z_strip_parse_rt (lib : DateLib) (hlib : LibParses lib) (f : Fields) (hf
   rw [as_datetime_pdfZ]
   simp only [Option.bind_some]
   have hr := utc_in_range f hf
+  have hs60 : ¬ f.utc.second = 60 := by have := hf.2.2.2.2.2.2.2.1; simp only [Fields.utc]; omega
   refine ⟨?_, ?_, ?_⟩
   · have := firstAlt_head lib true f.strippedZ CHRONO_PARSE f.utc chrono_alts.1 chrono_alts.2.1 (by
       rw [(hlib _ _ _).1]
       show (parseToks true (tokStrftime _) zeroFields f.strippedZ).bind _ = _
       rw [chrono_alts.2.2, parse_z_permissive f hf]
-      simp [hr])
+      simp [hr.1, hr.2, hs60])
     exact this
   · obtain ⟨j1, j2, rest, hL, h1, h2⟩ := jiff_alts2
     have e1 : lib.strptime false j1 f.strippedZ = none := by
       rw [(hlib false j1 _).1, spec_strptime, h1, (parse_z_first_fails f).1]; rfl
     have e2 : lib.strptime false j2 f.strippedZ = some f.utc := by
-      rw [(hlib false j2 _).1, spec_strptime, h2, parse_z_literal false f hf]; simp [hr]
+      rw [(hlib false j2 _).1, spec_strptime, h2, parse_z_literal false f hf]; simp [hr.1, hr.2, hs60]
     unfold jiffParse
     rw [hL, firstAlt_none _ _ _ _ _ _ e1, firstAlt_some _ _ _ _ _ _ _ e2, applyKind_utc]
   · obtain ⟨t1, t2, rest, hL, h1, h2⟩ := time_alts2
     have e1 : lib.timeParse t1 f.strippedZ = none := by
       rw [(hlib false t1 _).2, spec_timeParse, h1, (parse_z_first_fails f).2]; rfl
     have e2 : lib.timeParse t2 f.strippedZ = some f.utc := by
-      rw [(hlib false t2 _).2, spec_timeParse, h2, parse_z_literal false f hf]; simp [hr]
+      rw [(hlib false t2 _).2, spec_timeParse, h2, parse_z_literal false f hf]; simp [hr.1, hr.2, hs60]
     unfold timeParse
     rw [hL, firstAltTime_none _ _ _ _ _ e1, firstAltTime_some _ _ _ _ _ _ e2, applyKind_utc]
 
-/-- F-C18-b repaired: `From<time::Time>` yields the `Z` date form of the current UTC date at the given time of day -/
-theorem time_time_shape (lib : DateLib) (hlib : LibFormats lib) (f : Fields) (hf : FieldsOk f) :
-    timeTimeString lib f = some f.pdfZ := by
-  unfold timeTimeString; rw [(hlib _ f hf).2]
-  show renderToks f (tokTimeFd TIME_TIME_FMT none) = _
+/-- F-C18-b repaired: `From<time::Time>` yields the `Z` date form of `today`'s date (what
+`OffsetDateTime::now_utc()` returned — assumed only to be a valid UTC date in years 0000–9999, see
+`timeTimeString`) at the given time of day -/
+theorem time_time_shape (lib : DateLib) (hlib : LibFormats lib) (today : Fields) (ht : FieldsOk today)
+    (h mi s : Nat) (hh : h < 24) (hmi : mi < 60) (hs : s < 60) :
+    timeTimeString lib today h mi s = some (pdfDateZ today.year today.month today.day h mi s) := by
+  have hok : FieldsOk { today with hour := h, minute := mi, second := s, offNeg := false, offH := 0, offM := 0 } := by
+    obtain ⟨h1, h2, h3, h4, h5, _, _, _, _, _⟩ := ht
+    exact ⟨h1, h2, h3, h4, h5, hh, hmi, hs, by show 0 < 24; omega, by show 0 < 60; omega⟩
+  unfold timeTimeString; rw [(hlib _ _ hok).2]
+  show renderToks _ (tokTimeFd TIME_TIME_FMT none) = _
   rw [tok_time_time]
-  simp [renderToks, renderTok, Fields.pdfZ, pdfDateZ, pad2_eq, pad4_eq]
+  simp [renderToks, renderTok, pdfDateZ, pad2_eq, pad4_eq]
 
 /-- the UTC producers (chrono `DateTime<Utc>`, jiff `Timestamp`, `time::Time`) into every backend -/
 theorem z_format_strip_parse (lib : DateLib) (hF : LibFormats lib) (hP : LibParses lib) (f : Fields) (hf : FieldsOk f) :
-    ∀ s ∈ [chronoUtcString lib f, jiffTimestampString lib f, timeTimeString lib f],
+    ∀ s ∈ [chronoUtcString lib f, jiffTimestampString lib f, timeTimeString lib f f.hour f.minute f.second],
       ∃ bs, s = some bs ∧
         (asDatetime (.str bs .lit)).bind (chronoParse lib) = some f.utc ∧
         (asDatetime (.str bs .lit)).bind (jiffParse lib) = some f.utc ∧
         (asDatetime (.str bs .lit)).bind (timeParse lib) = some f.utc := by
   have hs := date_string_shape lib hF f hf
-  have ht := time_time_shape lib hF f hf
+  have ht : timeTimeString lib f f.hour f.minute f.second = some f.pdfZ :=
+    time_time_shape lib hF f hf f.hour f.minute f.second hf.2.2.2.2.2.1 hf.2.2.2.2.2.2.1 hf.2.2.2.2.2.2.2.1
   have hp := z_strip_parse_rt lib hP f hf .lit
   intro s hs'
   simp only [List.mem_cons, List.not_mem_nil, or_false] at hs'
@@ -497,5 +520,128 @@ theorem z_format_strip_parse (lib : DateLib) (hF : LibFormats lib) (hP : LibPars
   · exact ⟨f.pdfZ, by rw [h, hs.2.2.2.1], hp⟩
   · exact ⟨f.pdfZ, by rw [h, hs.2.2.2.2], hp⟩
   · exact ⟨f.pdfZ, by rw [h, ht], hp⟩
+
+/-! ### calendar validity of what the parsers return -/
+
+/-- a date that exists (proleptic Gregorian) and a time of day in range -/
+def CalendarValid (f : Fields) : Prop :=
+  1 ≤ f.month ∧ f.month ≤ 12 ∧ 1 ≤ f.day ∧ f.day ≤ daysInMonth f.year f.month ∧ f.hour < 24 ∧ f.minute < 60 ∧ f.second < 60
+
+theorem calendarValid_of_inRange (m : Nat) (f : Fields) (h : fieldsInRangeH m f = true) : CalendarValid f := by
+  simp only [fieldsInRangeH, Bool.and_eq_true, decide_eq_true_eq] at h
+  obtain ⟨⟨⟨⟨⟨⟨⟨⟨h1, h2⟩, h3⟩, h4⟩, h5⟩, h6⟩, h7⟩, _⟩, _⟩ := h
+  exact ⟨h1, h2, h3, h4, h5, h6, h7⟩
+
+theorem calendarValid_applyKind (k : Nat) (f : Fields) (h : CalendarValid f) : CalendarValid (applyKind k f) := by
+  unfold applyKind; split <;> exact h
+
+theorem firstAlt_valid (lib : DateLib) (hlib : LibParses lib) (z : Bool) (s : Bytes) :
+    ∀ (L : List (Nat × Bytes)) (f : Fields), firstAlt lib z s L = some f → CalendarValid f
+  | [], f, h => by simp [firstAlt] at h
+  | (k, fmt) :: rest, f, h => by
+    simp only [firstAlt] at h
+    cases hp : lib.strptime z fmt s with
+    | none => rw [hp] at h; exact firstAlt_valid lib hlib z s rest f h
+    | some g =>
+      rw [hp] at h
+      simp only [Option.some.injEq] at h
+      subst h
+      rw [(hlib z fmt s).1, spec_strptime] at hp
+      cases hq : parseToks z (tokStrftime fmt) zeroFields s with
+      | none => simp [hq] at hp
+      | some g' =>
+        simp only [hq, Option.bind_some] at hp
+        generalize hg2 : (if g'.second = 60 then { g' with second := 59 } else g') = g2 at hp
+        by_cases hr : (if z = true then fieldsInRange g2 else fieldsInRangeWide g2) = true
+        · simp only [hr, if_true, Option.some.injEq] at hp; subst hp
+          refine calendarValid_applyKind k _ ?_
+          cases z
+          · exact calendarValid_of_inRange 26 _ (by simpa [fieldsInRangeWide] using hr)
+          · exact calendarValid_of_inRange 24 _ (by simpa [fieldsInRange] using hr)
+        · simp [hr] at hp
+
+theorem firstAltTime_valid (lib : DateLib) (hlib : LibParses lib) (s : Bytes) :
+    ∀ (L : List (Nat × Bytes)) (f : Fields), firstAltTime lib s L = some f → CalendarValid f
+  | [], f, h => by simp [firstAltTime] at h
+  | (k, fmt) :: rest, f, h => by
+    simp only [firstAltTime] at h
+    cases hp : lib.timeParse fmt s with
+    | none => rw [hp] at h; exact firstAltTime_valid lib hlib s rest f h
+    | some g =>
+      rw [hp] at h
+      simp only [Option.some.injEq] at h
+      subst h
+      rw [(hlib true fmt s).2, spec_timeParse] at hp
+      cases hq : parseToks false (tokTimeFd fmt none) zeroFields s with
+      | none => simp [hq] at hp
+      | some g' =>
+        simp only [hq, Option.bind_some] at hp
+        by_cases hr : fieldsInRangeWide g' = true
+        · simp only [hr, if_true, Option.some.injEq] at hp; subst hp
+          exact calendarValid_applyKind k _ (calendarValid_of_inRange 26 _ hr)
+        · simp [hr] at hp
+
+/-- **Only dates that exist come back**: whatever string is given, a backend that accepts it returns a
+calendar-valid date and an in-range time of day (`LibParses`: the libraries check the scanned fields as
+`fieldsInRange` does — day against the length of that month in that year). -/
+theorem parsed_dates_valid (lib : DateLib) (hlib : LibParses lib) (s : Bytes) (f : Fields) :
+    (chronoParse lib s = some f ∨ jiffParse lib s = some f ∨ timeParse lib s = some f) → CalendarValid f := by
+  rintro (h | h | h)
+  · exact firstAlt_valid lib hlib true s _ f h
+  · exact firstAlt_valid lib hlib false s _ f h
+  · exact firstAltTime_valid lib hlib s _ f h
+
+/-- 30 February, 31 April, 29 February 1900 / 2023 are rejected by every backend in every form;
+29 February 2000 / 2024 are accepted -/
+theorem invalid_days_rejected :
+    let bad : List Bytes := [
+      [68, 58, 50, 48, 50, 51, 48, 50, 51, 48, 49, 50, 48, 48, 48, 48, 43, 48, 48, 39, 48, 48, 39],   -- D:20230230120000+00'00'
+      [68, 58, 50, 48, 50, 51, 48, 52, 51, 49, 49, 50, 48, 48, 48, 48, 90],                            -- D:20230431120000Z
+      [68, 58, 49, 57, 48, 48, 48, 50, 50, 57],                                                        -- D:19000229
+      [68, 58, 50, 48, 50, 51, 48, 50, 50, 57],                                                        -- D:20230229
+      [68, 58, 50, 48, 50, 52, 49, 51, 48, 49],                                                        -- D:20241301
+      [68, 58, 50, 48, 50, 52, 48, 49, 48, 48]]                                                        -- D:20240100
+    let good : List Bytes := [[68, 58, 50, 48, 48, 48, 48, 50, 50, 57], [68, 58, 50, 48, 50, 52, 48, 50, 50, 57]]
+    (∀ b ∈ bad, (asDatetime (.str b .lit)).bind (chronoParse specLib) = none ∧
+                (asDatetime (.str b .lit)).bind (jiffParse specLib) = none ∧
+                (asDatetime (.str b .lit)).bind (timeParse specLib) = none) ∧
+    (∀ g ∈ good, ((asDatetime (.str g .lit)).bind (chronoParse specLib)).isSome ∧
+                 ((asDatetime (.str g .lit)).bind (jiffParse specLib)).isSome ∧
+                 ((asDatetime (.str g .lit)).bind (timeParse specLib)).isSome) := by
+  decide +kernel
+
+/-! ### chrono: `DateTime<FixedOffset>` → `DateTime<Local>` -/
+
+/-- what is assumed of `DateTime::with_timezone`: the instant is kept, the offset becomes the zone's -/
+def ToOffsetKeepsInstant (lib : DateLib) : Prop :=
+  ∀ (o : Int) (f : Fields), epochOf (lib.toOffset o f) = epochOf f ∧ offsetSeconds (lib.toOffset o f) = o
+
+/-- **What `TryFrom<DateTime> for DateTime<Local>` returns**: the parsed date-time re-expressed in the
+local zone — the INSTANT of the parsed string, and the local zone's offset (the offset written in the
+string is not kept). This is what the check compares for chrono: `timestamp()`, and, with `TZ` set, the
+offset and the civil fields of the value. -/
+theorem chrono_local_conversion (lib : DateLib) (hto : ToOffsetKeepsInstant lib) (localOff : Int) (s : Bytes) (g : Fields)
+    (h : chronoTryFrom lib localOff s = some g) :
+    ∃ f, chronoParse lib s = some f ∧ epochOf g = epochOf f ∧ offsetSeconds g = localOff := by
+  unfold chronoTryFrom at h
+  cases hp : chronoParse lib s with
+  | none => simp [hp] at h
+  | some f =>
+    simp only [hp, Option.map_some, Option.some.injEq] at h
+    subst h
+    exact ⟨f, rfl, (hto localOff f).1, (hto localOff f).2⟩
+
+/-- round trip through the local zone: for every valid field tuple, any producer's string parsed by
+chrono under any local offset denotes the same instant -/
+theorem chrono_local_rt (lib : DateLib) (hP : LibParses lib) (hto : ToOffsetKeepsInstant lib) (localOff : Int)
+    (f : Fields) (hf : FieldsOk f) (fmt : StrFmt) :
+    ∃ g, (asDatetime (.str f.pdf fmt)).bind (chronoTryFrom lib localOff) = some g ∧
+      epochOf g = epochOf f ∧ offsetSeconds g = localOff := by
+  have h := (strip_parse_rt lib hP f hf fmt).1
+  cases ha : asDatetime (.str f.pdf fmt) with
+  | none => simp [ha] at h
+  | some s =>
+    simp only [ha, Option.bind_some] at h ⊢
+    exact ⟨lib.toOffset localOff f, by simp [chronoTryFrom, h], (hto localOff f).1, (hto localOff f).2⟩
 
 end Lopdf
